@@ -53,7 +53,8 @@ EvVerdict(t, j) ==
   LET q == t.qs[ev.qi]
       W == t.W
   IN CASE ev.op = "drain" ->
-            IF ev.exc # "none" THEN "exception"
+            IF ~UniversalsNonEmpty(q.cond, q, W) THEN "ok"        \* empty universal domain: outside C10, not judged
+            ELSE IF ev.exc # "none" THEN "exception"
             ELSE LET v == RowsVerdict(CompareMode(q), RowSeq(q, W), ev.rows)
                  IN IF v # "ok" THEN v
                     ELSE IF ev.eqto > 0 /\ ~SameRowSet(OffRows(ev.rows, ev.eqoff), t.evs[ev.eqto].rows)
